@@ -200,6 +200,14 @@ func (w *World) tPeers(toks []string) {
 	w.printf("tevents %s members=%s\n", joinOrDash(evs), joinOrDash(ms))
 }
 
+// hxe is hx with the empty payload written "." (so that a list holding one empty payload is not "-")
+func hxe(b []byte) string {
+	if len(b) == 0 {
+		return "."
+	}
+	return hx(b)
+}
+
 func joinOrDash(xs []string) string {
 	if len(xs) == 0 {
 		return "-"
@@ -241,7 +249,7 @@ loop:
 			if string(m.Content) == "\x00end" {
 				break loop
 			}
-			got = append(got, hx(m.Content))
+			got = append(got, hxe(m.Content))
 		case <-timeout:
 			got = append(got, "TIMEOUT")
 			break loop
@@ -258,7 +266,7 @@ type recEmitter struct {
 
 func (r *recEmitter) Emit(e *iface.EventPubSubPayload) error {
 	r.mu.Lock()
-	r.got = append(r.got, fmt.Sprintf("%d:%s", tpeerNum(e.Peer), hx(e.Payload)))
+	r.got = append(r.got, fmt.Sprintf("%d:%s", tpeerNum(e.Peer), hxe(e.Payload)))
 	r.mu.Unlock()
 	select {
 	case r.cond <- struct{}{}:
@@ -441,7 +449,7 @@ func (w *World) tFrame(toks []string) {
 	if len(got) == 1 {
 		// print the sender and a digest-free summary: length and first bytes
 		i := strings.IndexByte(got[0], ':')
-		payload := unhx(got[0][i+1:])
+		payload := unhx(strings.TrimPrefix(got[0][i+1:], "."))
 		out = fmt.Sprintf("from=%s len=%d head=%s", got[0][:i], len(payload), hx(payload[:min(len(payload), 16)]))
 	} else if len(got) > 1 {
 		out = fmt.Sprintf("multiple=%d", len(got))
